@@ -47,6 +47,9 @@ def build(env, sessions_per_cell, huge):
             m = gen.add_pair(s, g, kem, mode, info=g.rbytes(rnd.choice([0, 1, 64, big])),
                              psk=g.rbytes(rnd.choice([1, 32, 4096, big])) if mode in (1, 3) else None,
                              pskid=g.rbytes(rnd.choice([1, 255, 4097, big])) if mode in (1, 3) else None)
+            # --- rendering of every error variant (Display and Debug), with payloads in both orders and at the extremes
+            if j == 0:
+                s.call("errfmt", cls="error_formatting")
             # --- deserializers
             kinds = [("pk", npk), ("sk", nsk), ("enc", npk), ("tag", 16)]
             kind, size = kinds[(ci + j) % 4]
